@@ -213,6 +213,9 @@ def check_case(ref, W, fs, s, baseline=None):
     if ans["all"] != exp_a:
         srcs = {(W.sources.get(t) or {}).get("key", "paths") for t, _ in typed}
         bad("all-differs-from-reference" + ("/last" if last else "") + ("/typed-searches-served-by-different-sources" if last and len(srcs) > 1 else ""), [sorted(ans["all"] - exp_a)[:4], sorted(exp_a - ans["all"])[:4]], sorted(exp_a)[:4])
+    if "all:named" in ans and ans["all:named"] != ans["all"] and ans["all"] == exp_a:
+        bad("all-differs-from-reference/finder-created-with-a-configuration-name" + ("/last" if last else ""),
+            [sorted(ans["all:named"] - exp_a)[:4], sorted(exp_a - ans["all:named"])[:4]], sorted(exp_a)[:4])
     if baseline is not None:
         for name in fs:
             if baseline.get(name) is not None and ans[name] != baseline[name]:
@@ -222,7 +225,7 @@ def check_case(ref, W, fs, s, baseline=None):
 
 
 def _kind(name):
-    return name if name in ("list", "all") else "paths"
+    return name.split(":")[0] if name.split(":")[0] in ("list", "all") else "paths"
 
 
 def variants(tier):
